@@ -7,7 +7,7 @@ pub fn find_next_line_break_pos(
     let mut cursor = byte_pos;
 
     loop {
-        if cursor >= bytes.len() || cursor == 0 {
+        if cursor >= bytes.len() {
             break None;
         }
 
@@ -33,14 +33,14 @@ pub fn find_prev_line_break_pos(
 ) -> Option<usize> {
     let mut cursor = byte_pos;
 
-    if cursor == 0 {
-        return None;
-    }
-
     loop {
+        if cursor == 0 {
+            break None;
+        }
+
         cursor -= 1;
 
-        if cursor >= bytes.len() || cursor == 0 {
+        if cursor >= bytes.len() {
             break None;
         }
 
